@@ -192,6 +192,19 @@ def _newmark_case(args, t0):
 
     def nlspec(u, j):
         return sp.Matrix([c1 * u[j][0] ** (2 if nl == "quad" else 1) + c2 * (u[j][0] - u[j - 1][0]) / h])
+
+    # a SECOND term: different function, different keyword argument, acts on the other equation, 2-column transform
+    c3 = sp.Symbol("cn3", real=True)
+    Tn2 = sp.Matrix(n, 1, lambda i, j: sp.Symbol("U%d%d" % (i, j), real=True))
+
+    def nlfunc2(d, j, hh, gain=None):
+        return np.array([gain * (d[1, j] + d[0, j - 1])], dtype=object)
+
+    def nlspec2(u, j):
+        return sp.Matrix([c3 * (u[j][1] + u[j - 1][0])])
+    two_terms = nl in ("lin2", "quad2")
+    if two_terms:
+        nl = nl[:-1]
     extra = {mm.__name__: {"np": NPN(), "la": symla} for mm in mods}
     with alg.Multi(mods, reg, extra):
         def arr(Mx, diag):
@@ -212,9 +225,12 @@ def _newmark_case(args, t0):
         marg = None if mkind == "none" else arr(Mf, unc)
         ts = nm.SolveNewmark(marg, arr(Bf, unc), arr(Kf, unc), alg.S(h), rf=([n] if rf else None))
         if nl:
-            ts.def_nonlin({"drag": (nlfunc, symla.toarr(Tn) if not rf else symla.toarr(Tn), dict(c1=alg.S(c1), c2=alg.S(c2)))})
+            terms = {"drag": (nlfunc, symla.toarr(Tn), dict(c1=alg.S(c1), c2=alg.S(c2)))}
+            if two_terms:
+                terms["spring"] = (nlfunc2, symla.toarr(Tn2), dict(gain=alg.S(c3)))
+            ts.def_nonlin(terms)
         sol = ts.tsolve(symla.toarr(F), **kw)
-    ds, vs, as_, zs = newmark_spec(M, B, K, h, F[:n, :], d0s, v0s, [(nlspec, Tn)] if nl else [], Ai=Ai)
+    ds, vs, as_, zs = newmark_spec(M, B, K, h, F[:n, :], d0s, v0s, ([(nlspec, Tn)] + ([(nlspec2, Tn2)] if two_terms else [])) if nl else [], Ai=Ai)
     out = []
     tag = "SolveNewmark%s" % (args,)
     bad = []
@@ -243,7 +259,13 @@ def _newmark_case(args, t0):
         for j in range(nt):
             if not iszero(alg.expr_of(z[0, j]) - zs[0][j][0], det):
                 bad.append(dict(step=j, got=str(alg.expr_of(z[0, j]))[:120], want=str(zs[0][j][0])[:120]))
-        out.append(dict(name=tag + "::z history of the nonlinear term equals func(u, j) on the documented displacements (u_-1 at j=0)",
+        if two_terms:
+            z2 = sol.z["spring"]
+            for j in range(nt):
+                for r_ in range(1):
+                    if not iszero(alg.expr_of(z2[r_, j]) - zs[1][j][r_], det):
+                        bad.append(dict(term="spring", step=j, row=r_))
+        out.append(dict(name=tag + "::z history of every nonlinear term equals its own func(u, j, **its own args) on the documented displacements (u_-1 at j=0)",
                         status="failed" if bad else "proved", seconds=0.0, detail={"bad": bad[:4]}))
     return out
 
@@ -431,6 +453,18 @@ def cdf_diag_identity(seed):
         errs["newmark"].append(abs(nb.d - rd).max())
         cd = ode.SolveCDF(np.diag(M), B, np.diag(np.diag(K)), h)
         ev += 2
+    # cd-as-force after a pre-eigensolution (physical, non-proportional damping): the returned a, v, d satisfy the PHYSICAL equation of motion
+    Mp = np.array([[2.0, 0.3, 0.0], [0.3, 1.5, 0.2], [0.0, 0.2, 3.0]])
+    Kp = np.array([[90.0, -30.0, 0.0], [-30.0, 60.0, -20.0], [0.0, -20.0, 45.0]])
+    Cp = np.array([[0.9, -0.2, 0.0], [-0.2, 0.6, -0.1], [0.0, -0.1, 0.4]])
+    tt = np.arange(0, 0.2, 0.002)
+    Fp = np.vstack((np.sin(9 * tt), np.cos(5 * tt) - 1, 0.3 * tt))
+    for cls_, kw_ in ((ode.SolveCDF, {}), (ode.SolveUnc, {"cd_as_force": True})):
+        sol_ = cls_(Mp, Cp, Kp, 0.002, pre_eig=True, **kw_).tsolve(Fp)
+        ev += 1
+        res_ = Mp @ sol_.a + Cp @ sol_.v + Kp @ sol_.d - Fp
+        if abs(res_).max() > 1e-8 * abs(Fp).max():
+            return ev, dict(what="%s(pre_eig=True): M a + C v + K d != F in physical coordinates" % cls_.__name__, max_residual=float(abs(res_).max()))
     r = [errs["newmark"][i] / errs["newmark"][i + 1] for i in range(2)]
     if not all(x > 1.7 for x in r):
         return ev, dict(what="SolveNewmark error does not shrink under step halving", ratios=r, errors=errs["newmark"])
@@ -451,7 +485,7 @@ def run(tier, seed):
             if isinstance(nd, ast.FunctionDef) and nd.name in names:
                 run.add_function(rel, nd.name, hashlib.sha256(ast.unparse(nd).encode()).hexdigest()[:16], {"note": "real function executed on symbolic inputs"})
     ncases = [("unc", "vector", False, False, "d0v0", 4), ("unc", "none", True, False, "d0v0", 4), ("unc", "vector", True, "quad", "d0", 3), ("unc", "vector", False, "lin", "d0v0", 4),
-              ("unc", "singular", False, False, "d0v0", 4), ("unc", "vector", False, False, "zero", 2), ("unc", "vector", False, "quad", "d0", 2), ("unc", "none", False, "quad", "zero", 3),
+              ("unc", "singular", False, False, "d0v0", 4), ("unc", "vector", False, False, "zero", 2), ("unc", "vector", False, "quad", "d0", 2), ("unc", "none", False, "quad", "zero", 3), ("unc", "vector", False, "lin2", "d0v0", 3), ("coupled", "matrix", False, "lin2", "d0", 3),
               ("coupled", "matrix", False, False, "d0v0", 3), ("coupled", "none", True, False, "d0v0", 3), ("coupled", "matrix", False, "lin", "d0", 3),
               ("coupled", "singular", False, False, "d0v0", 3), ("coupled", "matrix", True, "quad", "d0v0", 2), ("coupled", "matrix", False, False, "zero", 4)]
     ccases = [(c, o, mf) for c in ("SolveUnc-cdf", "SolveCDF") for o in (0, 1) for mf in ("vector", "none")]
